@@ -31,12 +31,16 @@ PIECES = [
     "#STEPSTYPE:x;",
     "#NOTES:0000;",
     "#NOTES2:1111;",
+    "#CREDIT:;",
+    "#NOTES:;",
+    "#METER:0;",
+    "#NOTES:0;",
     "#TITLE:no semicolon\n",
     "stray",
     "// comment\n",
     "\r\n",
 ]
-CORE_PIECES = [0, 1, 2, 4, 6, 10, 13, 15, 18, 17]
+CORE_PIECES = [0, 1, 2, 4, 6, 10, 13, 15, 17, 18, 22]
 
 # layer C: character-level symbols
 SYMBOLS = ["a", "#", ":", ";", "\n", "\\", "/", "VERSION", "NOTES"]
